@@ -1,6 +1,7 @@
 import ShellOp.Proofs.WorkerC17
 import ShellOp.Proofs.HookQueues
 import ShellOp.Proofs.ShutdownWait
+import ShellOp.Proofs.SetContext
 import ShellOp.Generated.Facts
 /-!
 # C17 — shutdown stops the queues cleanly
@@ -199,6 +200,78 @@ theorem stop_cancels_exactly_the_descendants_of_the_set_context (c : Ctx) :
     Ctx.cancelledBy .set .set = true := by
   refine ⟨?_, by decide, by decide, by decide⟩
   simp [Ctx.cancelledBy]
+
+/-! ### The stop request at the very first point of a run, and queues nobody pre-created -/
+
+open ShellOp.SetCtx in
+/-- **C17, quantifier "shutdown requested at every point of a run" — the first point included.** For every
+sequence of queue-set operations (`NewNamedQueue`, `Start` of a queue, `Stop()`) after `WithContext`, with the
+stop request at any position — also before the first queue exists — once `Stop()` has been called the
+cancellable context of the set is cancelled and every queue of the set, created before or after the request,
+listens to exactly that context: a queue created after the request is born stopped (its worker leaves at its
+first context check: `at_most_one_more` / `terminates_after_handler` with `cancelled = true` from the start).
+This is what entitles `Model/Worker` to a `stop` label that is enabled in every state. -/
+theorem stop_request_is_never_lost (ops : List Op) (h : Op.stop ∈ ops) :
+    (SetCtx.run false (SetCtx.init false) ops).cancelled = true ∧
+    ∀ q ∈ (SetCtx.run false (SetCtx.init false) ops).qs, hears (SetCtx.run false (SetCtx.init false) ops) q = true := by
+  obtain ⟨_, h2, h3⟩ := run_good ops _ init_good
+  have hc := h2 (run_requested false ops _ h)
+  exact ⟨hc, fun q hq => by simp [hears, h3 q hq, hc]⟩
+
+open ShellOp.SetCtx in
+/-- Non-vacuity: the request finds the set empty; main and a hook queue are created and started afterwards —
+both have heard it. And a request in the middle. -/
+example : heardNames (SetCtx.run false (SetCtx.init false) [.stop, .new 0, .start 0, .new 1, .start 1]) = [1, 0] ∧
+    heardNames (SetCtx.run false (SetCtx.init false) [.new 0, .start 0, .stop, .new 1, .start 1]) = [1, 0] := by decide
+
+open ShellOp.SetCtx in
+/-- **Witness (what the theorem excludes).** If the cancellable context is derived only when the first queue
+needs it, a stop request that finds the set empty is lost (`tqs.cancel` is still nil): the queues created and
+started afterwards run for ever. -/
+theorem lazily_derived_set_context_loses_an_early_stop :
+    let s := SetCtx.run true (SetCtx.init true) [.stop, .new 0, .start 0, .new 1, .start 1]
+    s.requested = true ∧ s.cancelled = false ∧ heardNames s = [] ∧ s.qs.all (·.started) = true := by decide
+
+open ShellOp.SetCtx in
+/-- … and that is the only order of operations that shows it: from the first queue creation on, the lazy
+variant is in the same state as the code for every continuation — why a harness that creates a queue before it
+stops anything cannot tell them apart. -/
+theorem lazy_variant_differs_only_before_the_first_queue (n : Nat) (ops : List Op) :
+    SetCtx.run true (SetCtx.init true) (.new n :: ops) = SetCtx.run false (SetCtx.init false) (.new n :: ops) := by
+  show SetCtx.run true (SetCtx.step true (SetCtx.init true) (.new n)) ops = SetCtx.run false (SetCtx.step false (SetCtx.init false) (.new n)) ops
+  have : SetCtx.step true (SetCtx.init true) (.new n) = SetCtx.step false (SetCtx.init false) (.new n) := by simp [SetCtx.step, SetCtx.init]
+  rw [this]
+  exact run_lazy_eq ops _ (by simp [SetCtx.step, SetCtx.init])
+
+open ShellOp.HookQueues in
+/-- **Every queue a binding names exists before the first event**, so nothing has to be created on demand:
+for every set of hooks and every queue name of a binding (names are compared exactly, as the Go map does —
+`slow` and `Slow` are two queues and both are created), a "create if absent" on ANY context in the event
+callbacks finds the queue and leaves the set as it is. -/
+theorem no_queue_is_left_to_on_demand_creation (sched kube : List (List QName)) (parent : Ctx) (n : QName)
+    (hn : n = 0 ∨ (∃ h ∈ sched, n ∈ h) ∨ (∃ h ∈ kube, n ∈ h)) :
+    ensureOn parent (operatorQueues sched kube) n = operatorQueues sched kube := by
+  have hhas := (every_operator_queue_hears_stop sched kube).2 n hn
+  have := (getByName_isSome _ n).mpr hhas
+  unfold ensureOn
+  cases hg : getByName (operatorQueues sched kube) n with
+  | none => simp [hg] at this
+  | some q => simp
+
+open ShellOp.HookQueues in
+/-- **Witness (what the two theorems exclude together).** The "already created?" bookkeeping of
+`initAndStartHookQueues` done under a key that identifies two names (here: modulo 10 — in the code it would be
+`strings.ToLower`) skips the second of them; a create-if-absent in the event callbacks, which can only use the
+operator's context, then builds it: in the set, started, deaf to `TaskQueueSet.Stop()`. With names that do not
+collide under the key both edits are inert. -/
+theorem folded_bookkeeping_plus_on_demand_creation_misses_stop :
+    let key : QName → Nat := (· % 10)
+    let pre := fun (names : List QName) => (names.foldl (fun (acc : QSet × List Nat) n =>
+      if acc.2.contains (key n) then acc else (ensure acc.1 n, key n :: acc.2)) (bootstrap, [key 0])).1
+    ((ensureOn .op (pre [1, 11]) 11).map fun q => (q.name, q.started, hearsStop q))
+      = [(11, true, false), (1, true, true), (0, true, true)] ∧
+    ((ensureOn .op (pre [1, 2]) 2).map fun q => (q.name, q.started, hearsStop q))
+      = [(2, true, true), (1, true, true), (0, true, true)] := by decide
 
 /-! ### `WaitStopWithTimeout` in every visiting order; `Shutdown()` against a monitor that is starting -/
 
